@@ -90,6 +90,24 @@ def random_descs(rng, n, exact):
     return out
 
 
+def far_descs(rng):
+    """Integer sub-group, coordinates of a few hundred mm, steps of one or two output units: an unrequested axis
+    whose machine coordinate changes by very little still has to be mentioned."""
+    out = [{"call": "xf_translate", "v": [float(rng.randint(100, 300)), float(rng.randint(100, 300)), 0.0]},
+           {"call": "xf_rotate", "angle": float(rng.choice([90, 180, 270])), "axis": rng.choice("xyz")}]
+    base = [float(rng.randint(100, 300)) for _ in range(3)]
+    out.append({"call": "move", "ax": list(base)})
+    for _ in range(rng.randint(6, 14)):
+        i = rng.randint(0, 2)
+        base[i] = round(base[i] + rng.choice([0.01, -0.01, 0.02, 0.05]), 2)
+        ax = [None, None, None]
+        ax[i] = base[i]
+        out.append({"call": rng.choice(["move", "rapid"]), "ax": ax})
+        if rng.random() < 0.2:
+            out.append({"call": "set_distance_mode", "mode": "absolute"})
+    return out
+
+
 def run_descs(descs, exact, meta=None):
     s = Session(dp=2, exact=exact, with_xf=True)
     for d in descs:
@@ -154,7 +172,7 @@ class P(flow.Plan):
         for i in range(n):
             rng = random.Random(sd * 104729 + i)
             exact = i % 2 == 0
-            descs = random_descs(rng, rng.randint(12, 35), exact)
+            descs = far_descs(rng) if i % 6 == 0 else random_descs(rng, rng.randint(12, 35), exact)
             traces.append(self._run(descs, exact, {"driver": "random", "seed": sd * 104729 + i}))
             inputs.append({"exact": exact, "descs": descs})
         return traces, inputs
